@@ -208,6 +208,9 @@ inline DecoderRS16<T_PointCloud>::DecoderRS16(const RSDecoderParam& param)
   this->packet_duration_ = 
     this->mech_const_param_.BLOCK_DURATION * this->const_param_.BLOCKS_PER_PKT * 2;
 
+  // single return (the initial echo mode): one MSOP block carries two firings of the 16 beams.
+  this->split_blks_per_frame_ = (this->blks_per_frame_ >> 1);
+
   calcParam();
 }
 
@@ -224,11 +227,12 @@ inline void DecoderRS16<T_PointCloud>::decodeDifopPkt(const uint8_t* packet, siz
   if (this->echo_mode_ != echo_mode)
   {
     this->echo_mode_ = echo_mode;
-    this->split_blks_per_frame_ = (this->echo_mode_ == RSEchoMode::ECHO_DUAL) ? 
-      this->blks_per_frame_ : (this->blks_per_frame_ >> 1);
-
     calcParam();
   }
+
+  // blks_per_frame_ follows the rpm of every DIFOP packet, so must the number of MSOP blocks per frame.
+  this->split_blks_per_frame_ = (this->echo_mode_ == RSEchoMode::ECHO_DUAL) ? 
+    this->blks_per_frame_ : (this->blks_per_frame_ >> 1);
 }
 
 template <typename T_PointCloud>
